@@ -143,16 +143,16 @@ theorem Mod.serialize_eq_cons (o c : Char) (plus : Bool) (m : Mod) :
     Mod.serialize o c plus m = o :: (Mod.serialize o c plus m).tail := by
   unfold Mod.serialize; split <;> rfl
 
-theorem serializeMods_cons (o c : Char) (plus : Bool) (m : Mod) (t : List Mod) :
-    serializeMods o c plus (m :: t) = Mod.serialize o c plus m ++ serializeMods o c plus t := by
+theorem serializeMods_cons (o c : Char) (plus : Plus) (m : Mod) (t : List Mod) :
+    serializeMods o c plus (m :: t) = Mod.serialize o c (plus m) m ++ serializeMods o c plus t := by
   simp [serializeMods]
 
-theorem serializeMods_head (o c : Char) (plus : Bool) (m : Mod) (t : List Mod) (rest : List Char) :
+theorem serializeMods_head (o c : Char) (plus : Plus) (m : Mod) (t : List Mod) (rest : List Char) :
     (serializeMods o c plus (m :: t) ++ rest).head? = some o := by
   rw [serializeMods_cons, Mod.serialize_eq_cons]; simp
 
 /-- the text of a list of modifications followed by `rest` stops a preceding modification -/
-theorem modStop_serializeMods (o c : Char) (ho1 : o ≠ '^') (ho2 : o.isDigit = false) (plus : Bool) (l : List Mod)
+theorem modStop_serializeMods (o c : Char) (ho1 : o ≠ '^') (ho2 : o.isDigit = false) (plus : Plus) (l : List Mod)
     (rest : List Char) (hrest : ModStop rest) : ModStop (serializeMods o c plus l ++ rest) := by
   cases l with
   | nil => simpa [serializeMods] using hrest
@@ -163,7 +163,7 @@ theorem modStop_serializeMods (o c : Char) (ho1 : o ≠ '^') (ho2 : o.isDigit = 
 
 /-- `_parse_modifications` reads back a whole run of modifications -/
 theorem parseMods_serialize (o c : Char) (hoc : o ≠ c) (hpo : '+' ≠ o) (hpc : '+' ≠ c) (ho1 : o ≠ '^')
-    (ho2 : o.isDigit = false) (plus : Bool) (l : List Mod) (hl : l.all (canonMod o c) = true)
+    (ho2 : o.isDigit = false) (plus : Plus) (l : List Mod) (hl : l.all (canonMod o c) = true)
     (rest : List Char) (hrest : ModStop rest) (hro : rest.head? ≠ some o) :
     parseMods o c (serializeMods o c plus l ++ rest) = .ok (l, rest) := by
   induction l with
@@ -181,7 +181,7 @@ theorem parseMods_serialize (o c : Char) (hoc : o ≠ c) (hpo : '+' ≠ o) (hpc 
     simp only [List.cons_append, List.append_assoc]
     rw [parseMods.eq_def]
     simp only [↓reduceIte]
-    have h1 := parseModBody_serialize o c hoc hpo hpc plus m hl.1 (serializeMods o c plus t ++ rest)
+    have h1 := parseModBody_serialize o c hoc hpo hpc (plus m) m hl.1 (serializeMods o c plus t ++ rest)
       (modStop_serializeMods o c ho1 ho2 plus t rest hrest)
     split
     · rename_i e he; rw [h1] at he; cases he
@@ -202,7 +202,7 @@ theorem appendOpt_addMods (cur : Option (List Mod)) (m : Mod) (t : List Mod) :
   · simp [ht]
   · simp [ht]
 
-theorem parseStart_labile (plus : Bool) (l : List Mod) (hl : l.all (canonMod '{' '}') = true) (acc : Annotation)
+theorem parseStart_labile (plus : Plus) (l : List Mod) (hl : l.all (canonMod '{' '}') = true) (acc : Annotation)
     (rest : List Char) (hrest : ModStop rest) :
     parseStart true acc (serializeMods '{' '}' plus l ++ rest) =
       parseStart true { acc with labile := appendOpt acc.labile l } rest := by
@@ -215,7 +215,7 @@ theorem parseStart_labile (plus : Bool) (l : List Mod) (hl : l.all (canonMod '{'
     rw [parseStart.eq_def]
     have hA : isAA '{' = false := by decide
     simp [hA]
-    have h1 := parseModBody_serialize '{' '}' (by decide) (by decide) (by decide) plus m hl.1
+    have h1 := parseModBody_serialize '{' '}' (by decide) (by decide) (by decide) (plus m) m hl.1
       (serializeMods '{' '}' plus t ++ rest) (modStop_serializeMods '{' '}' (by decide) (by decide) plus t rest hrest)
     split
     · rename_i e he; rw [h1] at he; cases he
@@ -278,7 +278,7 @@ theorem canonIsotope_canonMod (m : Mod) (h : canonIsotope m = true) : canonMod '
   exact ⟨by omega, h.2⟩
 
 /-- one run of `<…>` groups is read by a single `_parse_modifications('<','>')` call and then classified -/
-theorem parseStart_globals (plus : Bool) (g : List Mod) (hg : g ≠ []) (hcan : g.all (canonMod '<' '>') = true)
+theorem parseStart_globals (plus : Plus) (g : List Mod) (hg : g ≠ []) (hcan : g.all (canonMod '<' '>') = true)
     (acc : Annotation) (rest : List Char) (hrest : ModStop rest) (hro : rest.head? ≠ some '<') :
     parseStart true acc (serializeMods '<' '>' plus g ++ rest) =
       match addGlobals true acc g with
@@ -301,7 +301,7 @@ theorem parseStart_globals (plus : Bool) (g : List Mod) (hg : g ≠ []) (hcan : 
       rfl
 
 /-- `[..][..]?` (unknown position) and `[..][..]-` (N-terminal) -/
-theorem parseStart_brackets (plus : Bool) (u : List Mod) (hu : u ≠ []) (hcan : u.all (canonMod '[' ']') = true)
+theorem parseStart_brackets (plus : Plus) (u : List Mod) (hu : u ≠ []) (hcan : u.all (canonMod '[' ']') = true)
     (acc : Annotation) (sep : Char) (hsep : sep = '?' ∨ sep = '-') (rest : List Char) :
     parseStart true acc (serializeMods '[' ']' plus u ++ sep :: rest) =
       if sep = '-' then parseStart true { acc with nterm := addMods acc.nterm u } rest
@@ -368,11 +368,11 @@ theorem StartStop.head_ne {r : List Char} (h : StartStop r) (x : Char) (hx : isA
     · subst hc; simp; exact fun h => hx2 h.symm
 
 /-- text of an optional `[..]…sep` section -/
-def optSection (plus : Bool) (sep : Char) : Option (List Mod) → List Char
+def optSection (plus : Plus) (sep : Char) : Option (List Mod) → List Char
   | none => []
   | some l => serializeMods '[' ']' plus l ++ [sep]
 
-theorem optSection_modStop (plus : Bool) (sep : Char) (hsep : sep = '?' ∨ sep = '-') (x : Option (List Mod))
+theorem optSection_modStop (plus : Plus) (sep : Char) (hsep : sep = '?' ∨ sep = '-') (x : Option (List Mod))
     (r : List Char) (hr : ModStop r) : ModStop (optSection plus sep x ++ r) := by
   cases x with
   | none => simpa [optSection] using hr
@@ -381,7 +381,7 @@ theorem optSection_modStop (plus : Bool) (sep : Char) (hsep : sep = '?' ∨ sep 
     apply modStop_serializeMods '[' ']' (by decide) (by decide)
     rcases hsep with h | h <;> subst h <;> exact ModStop.cons (by decide) (by decide)
 
-theorem optSection_head_ne (plus : Bool) (sep : Char) (hsep : sep = '?' ∨ sep = '-') (x : Option (List Mod))
+theorem optSection_head_ne (plus : Plus) (sep : Char) (hsep : sep = '?' ∨ sep = '-') (x : Option (List Mod))
     (r : List Char) (hr : r.head? ≠ some '<') : (optSection plus sep x ++ r).head? ≠ some '<' := by
   cases x with
   | none => simpa [optSection] using hr
@@ -392,17 +392,17 @@ theorem optSection_head_ne (plus : Bool) (sep : Char) (hsep : sep = '?' ∨ sep 
       simp only [optSection, List.append_assoc]
       rw [serializeMods_head]; simp
 
-theorem optMods_modStop (o c : Char) (ho1 : o ≠ '^') (ho2 : o.isDigit = false) (plus : Bool)
+theorem optMods_modStop (o c : Char) (ho1 : o ≠ '^') (ho2 : o.isDigit = false) (plus : Plus)
     (x : Option (List Mod)) (r : List Char) (hr : ModStop r) : ModStop (optMods o c plus x ++ r) := by
   cases x with
   | none => simpa [optMods] using hr
   | some l => exact modStop_serializeMods o c ho1 ho2 plus l r hr
 
-theorem serializeMods_append (o c : Char) (plus : Bool) (l1 l2 : List Mod) :
+theorem serializeMods_append (o c : Char) (plus : Plus) (l1 l2 : List Mod) :
     serializeMods o c plus (l1 ++ l2) = serializeMods o c plus l1 ++ serializeMods o c plus l2 := by
   simp [serializeMods]
 
-theorem optMods_eq (o c : Char) (plus : Bool) (x : Option (List Mod)) :
+theorem optMods_eq (o c : Char) (plus : Plus) (x : Option (List Mod)) :
     optMods o c plus x = serializeMods o c plus (x.getD []) := by
   cases x <;> simp [optMods, serializeMods]
 
@@ -429,7 +429,7 @@ theorem canonOptMods_some (o c : Char) (l : List Mod) (h : canonOptMods o c (som
 
 /-- **start section**: labile, static, isotope, unknown-position and N-terminal modifications written by
 `_serialize_annotation_start` are read back by `_parse_sequence_start` into a fresh accumulator -/
-theorem parseStart_sections (plus : Bool) (lab st iso unk nt : Option (List Mod))
+theorem parseStart_sections (plus : Plus) (lab st iso unk nt : Option (List Mod))
     (h1 : canonOptMods '{' '}' lab = true) (h2 : canonGlobal canonStatic st = true)
     (h3 : canonGlobal canonIsotope iso = true) (h4 : canonOptMods '[' ']' unk = true)
     (h5 : canonOptMods '[' ']' nt = true) (rest : List Char) (hrest : StartStop rest) :
@@ -516,7 +516,7 @@ theorem parseStart_sections (plus : Bool) (lab st iso unk nt : Option (List Mod)
       simp [addMods]
   rw [s1, s2, s3, s4, parseStart_stop _ _ hrest]
 
-theorem serializeStart_eq (plus : Bool) (a : Annotation) :
+theorem serializeStart_eq (plus : Plus) (a : Annotation) :
     serializeStart plus a = optMods '{' '}' plus a.labile ++ (optMods '<' '>' plus a.static ++
       (optMods '<' '>' plus a.isotope ++ (optSection plus '?' a.unknown ++ optSection plus '-' a.nterm))) := by
   unfold serializeStart optSection
@@ -692,7 +692,7 @@ theorem parseEnd_stop (a : Annotation) (conn : Option Bool) (r : List Char) (h :
   · rw [parseEnd.eq_def]; simp [stopConn, stopRest]
 
 /-- **charge and adducts**: `/z[adduct]…` is read back by `_parse_sequence_end` -/
-theorem parseEnd_charge (plus : Bool) (a : Annotation) (ha0 : a.adducts = none)
+theorem parseEnd_charge (plus : Plus) (a : Annotation) (ha0 : a.adducts = none)
     (conn : Option Bool) (ch : Int) (ad : Option (List Mod)) (had : canonAdducts (some ch) ad = true)
     (rest : List Char) (hrest : ChainStop rest) :
     parseEnd a conn ('/' :: (intText ch ++ (optMods '[' ']' plus ad ++ rest))) =
